@@ -64,9 +64,16 @@ class Builder(object):
 
 
 def topo_flat(b):
-    for i in range(3):
-        b.rp('cn%d' % i, inv={'VCPU': 8, 'MEMORY_MB': 1024, 'DISK_GB': 100})
+    b.rp('cn0', inv={'VCPU': 8, 'MEMORY_MB': 1024, 'DISK_GB': 100})
+    b.rp('cn1', inv={'VCPU': {'total': 8, 'reserved': 2, 'allocation_ratio': 1.5},
+                     'MEMORY_MB': {'total': 1024, 'reserved': 100,
+                                   'step_size': 32, 'min_unit': 64},
+                     'DISK_GB': {'total': 100, 'reserved': 10,
+                                 'allocation_ratio': 0.75}})
+    b.rp('cn2', inv={'VCPU': {'total': 4, 'max_unit': 2, 'allocation_ratio': 16.0},
+                     'MEMORY_MB': 1024, 'DISK_GB': {'total': 100, 'max_unit': 12}})
     b.use(1, {'cn0': {'VCPU': 7}})
+    b.use(2, {'cn1': {'VCPU': 3, 'DISK_GB': 50}})
 
 
 def topo_nested(b):
@@ -92,7 +99,8 @@ def topo_mixed(b):
     b.rp('cn0', inv={'MEMORY_MB': 2048}, aggs=[1])
     b.rp('cn0_numa0', parent='cn0', inv={'VCPU': 4})
     b.rp('cn0_numa1', parent='cn0', inv={'VCPU': 4, 'DISK_GB': 10})
-    b.rp('cn1', inv={'VCPU': 8, 'MEMORY_MB': 1024, 'DISK_GB': 40}, aggs=[1, 2])
+    b.rp('cn1', inv={'VCPU': {'total': 8, 'reserved': 1, 'allocation_ratio': 2.5},
+                     'MEMORY_MB': 1024, 'DISK_GB': 40}, aggs=[1, 2])
     b.rp('cn2', inv={'VCPU': 2, 'MEMORY_MB': 512}, aggs=[2])
     b.rp('ss1', inv={'DISK_GB': 500}, traits=[SHARE], aggs=[1])
     b.rp('ss2', inv={'DISK_GB': 500}, traits=[SHARE, 'CUSTOM_T0'], aggs=[2])
